@@ -105,6 +105,10 @@ type Term struct {
 	WinSizeReq [][2]int
 	Bells      int
 
+	// Quiet: no drawing call is in progress; a printable character arriving now
+	// is stray text (e.g. residue of the padding or parameter language)
+	Quiet bool
+
 	// bookkeeping for the checks
 	Block       int // current block number (see NextBlock)
 	Erases      int // erase operations in the current block
@@ -201,6 +205,13 @@ func (t *Term) errf(format string, a ...any) {
 	if len(t.Errors) < 20 {
 		t.Errors = append(t.Errors, fmt.Sprintf("offset %d: ", t.seqStart)+fmt.Sprintf(format, a...))
 	}
+}
+
+// AbortPending forgets an incomplete sequence (the writer gave up mid-stream).
+func (t *Term) AbortPending() {
+	t.st = stGround
+	t.pend = nil
+	t.seq = nil
 }
 
 // Pending reports whether the stream stopped in the middle of a control
@@ -483,6 +494,9 @@ func (t *Term) print(r rune, alt bool, raw []byte) {
 	}
 	if t.PayloadHook != nil {
 		t.PayloadHook(r, raw)
+	}
+	if t.Quiet {
+		t.errf("printable character %q written while no drawing call is in progress (stray text: residue of the padding / parameter language?)", r)
 	}
 	w := 1
 	if !alt {
